@@ -13,8 +13,10 @@ def main():
     ap.add_argument("--seed", type=int, default=0)
     ap.add_argument("--out", required=True)
     a = ap.parse_args()
-    if "/repo" not in sys.path:
-        sys.path.insert(0, "/repo")
+    import os
+    repo = os.environ.get("PYVC_REPO", "/repo")
+    if repo not in sys.path:
+        sys.path.insert(0, repo)
     try:
         mod = importlib.import_module("bounded." + a.prop.lower())
         res = mod.run(a.tier, a.seed)
